@@ -95,6 +95,10 @@ edition = "2021"
 ascent = {{ workspace = true }}
 ascent-byods-rels = {{ workspace = true }}
 vh-lite = {{ workspace = true }}
+
+[features]
+# C09: the whole crate can be rebuilt with ascent's segment-codegen feature (thorough tier)
+segment = ["ascent/segment-codegen"]
 """)
         main_rs = [PRELUDE, "use vh_lite::{read_cases, drive, drive_group, quiet_panics, Out};", ""]
         table = []
